@@ -891,6 +891,37 @@ Proof.
     intros f Hf. destruct f as [|[|f]]; try lia. rewrite Hd. rewrite (compound_eq P). unfold bind at 1. rewrite H2. unfold bind at 1. rewrite H3.
     unfold bind at 1. rewrite (H4 f) by lia. unfold bind at 1. rewrite H5. unfold bind at 1. rewrite tcoord_eq. reflexivity.
 Qed.
+(* the compound statement on its own (a function body): nothing is looked at behind the closing brace *)
+Lemma compound_run : forall items, Forall item_ok items ->
+  forall (s: pstate) (lb: tok) li (rb: tok) rest, tk lb = K_LBRACE -> Spell li (concat (map (fun it => fst (fst it)) items)) -> tk rb = K_RBRACE ->
+  Up s (lb :: li ++ rb :: rest) -> pre s ->
+  exists f0 N s', (forall f, f0 <= f -> p_compound_statement P f s = Ok (N, s')) /\ Up s' rest /\
+    strip N = VNode C_Compound [match items with [] => VNone | _ => VList (map (fun it => snd (fst it)) items) end] None /\
+    Ran P s s' (S (S (length li))).
+Proof.
+  intros items HF s lb li rb rest Hlk HSi Hrk HU Hpre.
+  assert (Hlbk: kind_eqb (tk lb) K_LBRACE = true) by (rewrite Hlk; reflexivity).
+  destruct (expect_up P s lb _ K_LBRACE HU Hlbk) as [s2 [H2 [HU2 HC2]]].
+  assert (Hrbk: kind_eqb (tk rb) K_RBRACE = true) by (rewrite Hrk; reflexivity).
+  destruct items as [|it items'].
+  - cbn [map concat] in HSi. apply (RoundTrip.Spell_nil_inv P) in HSi. subst li. cbn [app] in HU2.
+    destruct (accept_hit P s2 rb _ K_RBRACE HU2 Hrbk) as [s3 [H3 [HU3 HC3]]].
+    exists 1, (mkN P C_Compound [VNone] (Some (mkCoord P (curfile P s3) (tp lb)))), s3. split; [|split; [exact HU3|split; [reflexivity|cost_tac]]].
+    intros f Hf. destruct f as [|f]; try lia. rewrite (compound_eq P). unfold bind at 1. rewrite H2. unfold bind at 1. rewrite H3.
+    unfold bind at 1. rewrite tcoord_eq. reflexivity.
+  - assert (Hfirst: exists t tl, li = t :: tl /\ kind_eqb (tk t) K_RBRACE = false).
+    { inversion HF as [|x y Hit _]; subst x y. destruct (item_first _ Hit) as [k [v [rest0 [Ek [Hnr _]]]]].
+      cbn [map concat] in HSi. rewrite Ek in HSi. cbn [app] in HSi. destruct (RoundTrip.Spell_cons_inv P _ _ _ _ HSi) as [t [tl [-> [Hkt [_ _]]]]].
+      exists t, tl. split; [reflexivity|rewrite Hkt; exact Hnr]. }
+    destruct Hfirst as [t [tl [El Hnrb]]]. rewrite El in HU2. cbn [app] in HU2.
+    destruct (accept_miss P s2 t _ K_RBRACE HU2 Hnrb) as [s3 [H3 [HU3 HC3]]].
+    change (t :: tl ++ rb :: rest) with ((t :: tl) ++ rb :: rest) in HU3. rewrite <- El in HU3.
+    destruct (blk_run (it :: items') HF s3 li rb rest HSi HU3 Hrk ltac:(pre_tac)) as [f1 [Ns [s4 [H4 [HU4 [HNs HL4]]]]]].
+    destruct (expect_up P s4 rb _ K_RBRACE HU4 Hrbk) as [s5 [H5 [HU5 HC5]]].
+    exists (S f1), (mkN P C_Compound [VList Ns] (Some (mkCoord P (curfile P s5) (tp lb)))), s5. split; [|split; [exact HU5|split; [unfold mkN; cbn [strip map]; rewrite HNs; reflexivity|cost_tac]]].
+    intros f Hf. destruct f as [|f]; try lia. rewrite (compound_eq P). unfold bind at 1. rewrite H2. unfold bind at 1. rewrite H3.
+    unfold bind at 1. rewrite (H4 f) by lia. unfold bind at 1. rewrite H5. unfold bind at 1. rewrite tcoord_eq. reflexivity.
+Qed.
 End PS.
 Unset Default Proof Using.
 
@@ -1084,7 +1115,7 @@ Proof. intros; exact I. Qed.
 Lemma pre_true_notd : false = true -> forall s : ParserBase.pstate P, True -> StreamLib.NoTD (scopes P s).
 Proof. intros H; discriminate H. Qed.
 Lemma pre_notd_SC : forall s s' : ParserBase.pstate P, StreamLib.NoTD (scopes P s) -> SC P s s' -> StreamLib.NoTD (scopes P s').
-Proof. intros s s' H Hsc. exact (Hsc H). Qed.
+Proof. intros s s' H Hsc. exact (proj1 Hsc H). Qed.
 Lemma pre_notd_notd : true = true -> forall s : ParserBase.pstate P, StreamLib.NoTD (scopes P s) -> StreamLib.NoTD (scopes P s).
 Proof. intros _ s H. exact H. Qed.
 
@@ -1145,7 +1176,7 @@ Theorem parse_of_generated_statement_with_decls : forall x, swfD x ->
     StreamLib.NoTD (scopes P s').
 Proof.
   intros x Hw s le stop l0 HS HU Hop HN. destruct (parse_of_generated_statement_with_decls_cost x Hw s le stop l0 HS HU Hop HN) as [f0 [N [s' [H [HU' [HN' [_ [_ Hsc]]]]]]]].
-  exists f0, N, s'. split; [exact H|split; [exact HU'|split; [exact HN'|exact (Hsc HN)]]].
+  exists f0, N, s'. split; [exact H|split; [exact HU'|split; [exact HN'|exact (proj1 Hsc HN)]]].
 Qed.
 
 Theorem statements_with_decls_linear : forall x, swfD x ->
